@@ -335,11 +335,9 @@ impl NetflowParser {
         // packed with minimal packets cannot exhaust the stack.
         while !packet.is_empty() {
             match self.parse_packet_by_version(packet) {
-                Ok(parsed_netflow) => {
-                    let consumed = packet
-                        .len()
-                        .saturating_sub(parsed_netflow.remaining.len());
-                    results.push(parsed_netflow.result);
+                Ok((remaining, result)) => {
+                    let consumed = packet.len().saturating_sub(remaining.len());
+                    results.push(result);
                     if consumed == 0 {
                         break;
                     }
@@ -380,11 +378,12 @@ impl NetflowParser {
 
     /// Checks the first u16 of the packet to determine the version.  Parses the packet based on the version.
     /// If the version is unknown it returns an error.  If the packet is incomplete it returns an error.
-    /// If the packet is parsed successfully it returns the parsed Netflow packet and the remaining bytes.
+    /// If the packet is parsed successfully it returns the parsed Netflow packet and the remaining bytes
+    /// (a slice of the input; nothing is copied per packet).
     fn parse_packet_by_version<'a>(
-        &'a mut self,
+        &mut self,
         packet: &'a [u8],
-    ) -> Result<ParsedNetflow, NetflowParseError> {
+    ) -> Result<(&'a [u8], NetflowPacket), NetflowParseError> {
         let (packet, version) = GenericNetflowHeader::parse(packet)
             .map(|(remaining, header)| (remaining, header.version))
             .map_err(|e| NetflowParseError::Incomplete(e.to_string()))?;
@@ -394,10 +393,10 @@ impl NetflowParser {
         }
 
         match version {
-            5 => V5Parser::parse(packet),
-            7 => V7Parser::parse(packet),
-            9 => self.v9_parser.parse(packet),
-            10 => self.ipfix_parser.parse(packet),
+            5 => V5Parser::parse_slice(packet),
+            7 => V7Parser::parse_slice(packet),
+            9 => self.v9_parser.parse_slice(packet),
+            10 => self.ipfix_parser.parse_slice(packet),
             _ => Err(NetflowParseError::UnknownVersion(packet.to_vec())),
         }
     }
